@@ -1,14 +1,16 @@
 /-
   C17 — the offset step (`if offset:`; temperatures, lat/lon) per Python type of the offset.
 
-  `in_units` and `convert_to_units` subtract the offset into the buffer
-  (`np.subtract(ret, offset, ret)`), which keeps the dtype whatever the offset's type; `in_base`
-  rebinds (`ret = ret - offset`), so NumPy's promotion with a *strong* offset (an `np.float64`:
-  every conversion between a unit with an offset and a Planck unit / the planck unit system) widens
-  float16/float32/complex64 data and the results of integer data.  The full statement is kept as a
-  `def`, the partial theorem carries the explicit guard, the counterexample is replayed on the real
-  code by the harness (known findings `dtype|in_base|…|offset`).  Kernel-decided over the regenerated
-  tables (`Generated/FactorTables.lean`).  Property statements only.
+  `in_units`, `convert_to_units` and — since fix C17-05 — `in_base` subtract the offset into the
+  buffer (`np.subtract(ret, offset, ret)`), which keeps the dtype whatever the offset's type.  Before
+  the fix `in_base` rebound (`ret = ret - offset`), so NumPy's promotion with a *strong* offset (an
+  `np.float64`: every conversion between a unit with an offset and a Planck unit / the planck unit
+  system) widened float16/float32/complex64 data and the results of integer data; on an unfixed tree
+  the `ast` pass reads `inBaseStep := .rebind`, `offset_full`, `live_offset_steps` and the agreement
+  theorems fail in the kernel, and the direct oracle reports the six `…|offset=npfloat8` keys
+  (`status: fixed`, which suppresses nothing).  `offset_step_full_iff_out_buffer` says why the
+  rebinding form cannot satisfy the property.  Kernel-decided over the regenerated tables
+  (`Generated/FactorTables.lean`).  Property statements only.
 -/
 import UnytModel.Dtype
 import UnytModel.DtypeFactor
@@ -64,42 +66,42 @@ def C17_offset_full : Prop :=
   ∀ fk ∈ factorKinds, ∀ r ∈ Route.sameDim, ∀ d ∈ scope, ∀ q ∈ [false, true],
     knownExcluded r d q = false → verdictO fk r d q = true
 
-/-- outside the explicit guard (`in_base` with a NumPy-scalar offset wider than the data) it holds -/
-theorem offset_dtype_partial :
-    ∀ fk ∈ factorKinds, ∀ r ∈ Route.sameDim, ∀ d ∈ scope, ∀ q ∈ [false, true],
-      knownExcluded r d q = false → knownOffsetExcluded r fk d = false → verdictO fk r d q = true := by
+/-- **the full statement holds** (fix C17-05): with a truthy offset of any kind, every
+    same-dimension route returns the required dtype, for every dtype, scalar and array -/
+theorem offset_full : C17_offset_full := by
+  unfold C17_offset_full
   decide +kernel
 
-example : FactorKind.npfloat 8 ∈ factorKinds ∧ Route.to ∈ Route.sameDim ∧ (⟨.f, 4⟩ : Dtype) ∈ scope
-    ∧ knownExcluded .to ⟨.f, 4⟩ false = false ∧ knownOffsetExcluded .to (.npfloat 8) ⟨.f, 4⟩ = false := by
+example : FactorKind.npfloat 8 ∈ factorKinds ∧ Route.inBase ∈ Route.sameDim ∧ (⟨.f, 4⟩ : Dtype) ∈ scope
+    ∧ knownExcluded .inBase ⟨.f, 4⟩ false = false := by
   decide +kernel
 
-/-- the guard is tight: every excluded cell really violates -/
-theorem offset_excluded_is_tight :
-    ∀ fk ∈ factorKinds, ∀ r ∈ Route.sameDim, ∀ d ∈ scope, ∀ q ∈ [false, true],
-      knownOffsetExcluded r fk d = true → verdictO fk r d q = false := by
+/-- nothing is excluded any more: the guard of the former `offset_dtype_partial` is empty -/
+theorem offset_guard_is_empty :
+    ∀ fk ∈ factorKinds, ∀ r ∈ Route.sameDim, ∀ d ∈ scope, knownOffsetExcluded r fk d = false := by
   decide +kernel
 
-example : knownOffsetExcluded .inBase (.npfloat 8) ⟨.i, 2⟩ = true ∧ knownOffsetExcluded .inBase (.npfloat 8) ⟨.f, 8⟩ = false
-    ∧ knownOffsetExcluded .inBase .pyfloat ⟨.f, 2⟩ = false := by decide
-
-/-- witness: float32 degC data, `in_base("planck")` → float64 (the in-place route keeps float32) -/
-theorem in_base_offset_counterexample :
-    routeDtypeO N P F R O (.npfloat 8) true .inBase ⟨.f, 4⟩ false = .ok ⟨.f, 8⟩
+/-- the former counterexample cell: float32 degC data, `in_base("planck")` — float32 on the copying
+    and on the in-place route -/
+theorem in_base_offset_keeps_width :
+    routeDtypeO N P F R O (.npfloat 8) true .inBase ⟨.f, 4⟩ false = .ok ⟨.f, 4⟩
     ∧ routeDtypeO N P F R O (.npfloat 8) true .convertToBase ⟨.f, 4⟩ false = .ok ⟨.f, 4⟩
     ∧ routeDtypeO N P F R O (.npfloat 8) true .to ⟨.f, 4⟩ false = .ok ⟨.f, 4⟩ := by
   decide +kernel
 
-theorem offset_counterexample : ¬ C17_offset_full := by
-  intro h
-  have := h (.npfloat 8) (by decide +kernel) .inBase (by decide) ⟨.f, 4⟩ (by decide +kernel) false (by decide) (by decide)
-  revert this
+/-- copying and in-place routes agree on the dtype with an offset of any kind (wherever the in-place
+    route returns) -/
+theorem routes_agree_dtype_with_offset :
+    ∀ fk ∈ factorKinds, ∀ d ∈ scope, ∀ q ∈ [false, true],
+      (mayRaise d ∨
+        (eqOutF (routeDtypeO N P F R O fk true .convertToUnits d q) (routeDtypeO N P F R O fk true .to d q) = true
+         ∧ eqOutF (routeDtypeO N P F R O fk true .convertToBase d q) (routeDtypeO N P F R O fk true .inBase d q) = true)) := by
   decide +kernel
 
-/-- copy (`to`, `in_units`) and in-place routes: the offset's type never changes the dtype — the
-    outcome with an offset is the outcome without, for every factor kind, dtype and shape -/
+/-- every same-dimension route: the offset's type never changes the dtype — the outcome with an
+    offset is the outcome without, for every factor kind, dtype and shape -/
 theorem out_buffer_routes_ignore_offset :
-    ∀ fk ∈ factorKinds, ∀ r ∈ [Route.to, .inUnits, .toValue, .convertToUnits, .convertToBase],
+    ∀ fk ∈ factorKinds, ∀ r ∈ Route.sameDim,
       ∀ d ∈ scope, ∀ q ∈ [false, true],
         eqOutF (routeDtypeO N P F R O fk true r d q) (routeDtypeF N P F R fk r d q) = true := by
   decide +kernel
@@ -112,7 +114,7 @@ theorem no_offset_is_factor_model :
 
 /-- **which form of the offset step satisfies the property**: applied to the (correct) result of
     the product stage, the step keeps the required dtype for every factor kind and dtype iff it
-    writes into the buffer; the rebinding form cannot (candidate fix C17-05: make `in_base` use
+    writes into the buffer; the rebinding form cannot (fix C17-05 made `in_base` use
     `np.subtract(ret, offset, ret)` like `in_units`) -/
 theorem offset_step_full_iff_out_buffer (s : OffsetStep) :
     (∀ fk ∈ factorKinds, ∀ d ∈ scope,
@@ -120,9 +122,9 @@ theorem offset_step_full_iff_out_buffer (s : OffsetStep) :
       ↔ s = .outBuffer := by
   cases s <;> decide +kernel
 
-/-- the live source: which routes use which form (read by the `ast` pass on every run) -/
+/-- the live source: all three routes write into the buffer (read by the `ast` pass on every run) -/
 theorem live_offset_steps :
-    O.copyStep = .outBuffer ∧ O.inplaceStep = .outBuffer ∧ O.inBaseStep = .rebind := by
+    O.copyStep = .outBuffer ∧ O.inplaceStep = .outBuffer ∧ O.inBaseStep = .outBuffer := by
   decide +kernel
 
 /-! ## agreement with the live library on conversions with an offset -/
@@ -136,7 +138,7 @@ theorem observed_offset_routes_cover_domain :
         observedOffsetRoutes.any fun (r', fk', d', q', _) => r' == r && fk' == fk && d' == d && q' == q) = true := by
   decide +kernel
 
-/-- directly on the observed outcomes (no model): outside the two exclusion lists every observed
+/-- directly on the observed outcomes (no model): outside `knownExcluded` every observed
     outcome of a conversion with an offset is acceptable to the reference -/
 theorem observed_offset_outcomes_satisfy_property :
     observedOffsetRoutes.all (fun (r, fk, d, q, o) =>
